@@ -189,6 +189,10 @@ def behave(node, kwargs, attempt, run):
                 return ('raise', fail[1])
             if attempt < len(fail) and fail[attempt] is not None:
                 return ('raise', fail[attempt])
+    foa = plan.get('fail_on_ad')
+    if foa and kwargs.get('additional_data') is not None and val in (plan.get('fail_on_ad_when') or [val]):
+        # the start node of a recurrent subgraph that fails only in a re-iteration (for some inputs)
+        return ('raise', foa)
     kind = node.get('kind', 'plain')
     if kind == 'decider':
         lbi = plan.get('label_by_input')
